@@ -933,7 +933,11 @@ pub fn bfs_from(cfgs: &[Cfg], alpha: &Alphabet, roots: &[State], max_depth: u32,
     let mut parents: Vec<(u32, u32)> = vec![];
     let mut index: HashMap<Vec<u8>, u32> = HashMap::new();
     let mut frontier: Vec<u32> = vec![];
-    for r in roots {
+    // The first root (the empty store) is explored to the full depth; the others -- stores that
+    // long histories reach -- enter the search one level later (as if reached by one operation),
+    // so they are explored to max_depth - 1.  The last level dominates the cost.
+    let mut late_roots: Vec<u32> = vec![];
+    for (ri, r) in roots.iter().enumerate() {
         let r = r.clone();
         let k = key_of(&r);
         if index.contains_key(&k) {
@@ -942,9 +946,13 @@ pub fn bfs_from(cfgs: &[Cfg], alpha: &Alphabet, roots: &[State], max_depth: u32,
         let id = states.len() as u32;
         index.insert(k, id);
         states.push(r);
-        depth_of.push(0);
+        depth_of.push(if ri == 0 { 0 } else { 1 });
         parents.push((id, 0));
-        frontier.push(id);
+        if ri == 0 {
+            frontier.push(id);
+        } else {
+            late_roots.push(id);
+        }
     }
     let mut transitions = 0u64;
     let mut outcome_classes: BTreeMap<String, u64> = BTreeMap::new();
@@ -959,6 +967,9 @@ pub fn bfs_from(cfgs: &[Cfg], alpha: &Alphabet, roots: &[State], max_depth: u32,
     let mut diverged_total = 0u64;
 
     for depth in 1..=max_depth {
+        if depth == 2 {
+            frontier.extend(late_roots.drain(..));
+        }
         if frontier.is_empty() {
             depth_completed = depth - 1;
             break;
